@@ -275,29 +275,30 @@ def run_cross_thread(ctx, exe):
             if r_ < 0.2 or nsl == 0:
                 ops += [1, arng.choice(SZ), 0]; nsl += 1
             elif r_ < 0.32:
-                ops += [3, arng.choice(SZ[1:]), 1 << arng.randrange(3, 15)]; nsl += 1
+                ops += [3, arng.choice(SZ[1:]), 1 << (arng.randrange(3, 15) if arng.random() < 0.8 else arng.choice([20, 24, 30, 31, 32, 33, 34, 36]))]; nsl += 1
             elif r_ < 0.44:
                 nn = arng.choice([1, 1, 2, 3, 16, 100]); ops += [5, nn, arng.choice(SZ[:26])]; nsl += 1
             elif r_ < 0.52:
-                ops += [7, arng.randrange(3, 15), arng.choice(SZ[1:])]; nsl += 1
+                ops += [7, arng.randrange(3, 15) if arng.random() < 0.8 else arng.choice([21, 30, 32, 33, 35]), arng.choice(SZ[1:])]; nsl += 1
             elif r_ < 0.68:
                 ops += [2, arng.randrange(nsl), 0]
             elif r_ < 0.84:
                 ops += [4, arng.randrange(nsl), arng.choice(SZ[1:])]
             elif r_ < 0.96:
-                ops += [6, arng.randrange(nsl), (arng.randrange(3, 13) << 32) | arng.choice(SZ[1:27])]
+                ops += [6, arng.randrange(nsl), ((arng.randrange(3, 13) if arng.random() < 0.8 else arng.choice([22, 31, 32, 33])) << 32) | arng.choice(SZ[1:27])]
             else:
                 ops += [8, arng.randrange(nsl), 0]
         acases.append(ops)
     ctx.rules.append("malloc-api (oracle only): random sequences over malloc / calloc / realloc / aligned_malloc / aligned_realloc / posix_memalign / free / msize with sizes at the class and route "
-                     "boundaries and alignments 8..16384: no overlap with live blocks, alignment, msize >= size, calloc zero-filled, realloc keeps min(old,new) bytes, live blocks keep their pattern")
+                     "boundaries and alignments 8..16384 and, one time in five, 2^20..2^36 (such a request may be refused; a block that is returned must be backed by accessible memory): no overlap with live blocks, alignment, msize >= size, calloc zero-filled, realloc keeps min(old,new) bytes, live blocks keep their pattern")
 
     def api_oracle(c, toks):
         if not toks or toks[0].startswith("CRASH") or toks[-1] == "HANG":
             return ("malloc-api-crash", "malloc-api sequence %s: crash/hang" % c[:60])
         d = {toks[i]: int(toks[i + 1]) for i in range(0, len(toks) - 1, 2)}
         msg = {"OVERLAP": "a new block overlaps a live block", "MISALIGNED": "a block is not aligned as requested", "MSIZE": "scalable_msize is below the requested size", "NONZERO": "calloc memory is not zero",
-               "LOSTDATA": "realloc lost part of the first min(old,new) bytes", "CORRUPT": "a live block was written by the allocator", "BADRET": "posix_memalign failed for a valid alignment"}
+               "LOSTDATA": "realloc lost part of the first min(old,new) bytes", "CORRUPT": "a live block was written by the allocator", "BADRET": "posix_memalign failed for a valid alignment",
+               "WILD": "a block returned for an alignment above 2^20 is not backed by accessible memory"}
         for k, m_ in msg.items():
             if d.get(k):
                 names = {1: "malloc", 2: "free#", 3: "aligned_malloc", 4: "realloc#", 5: "calloc", 6: "aligned_realloc#", 7: "posix_memalign 2^", 8: "msize#"}
